@@ -304,6 +304,9 @@ def lean_stage(check, pid, extra_targets=()):
             "checker_cmd": f"cd lean && lake build IxaiVerif.Audit.{pid}  (Lean 4.33.0 kernel; #print axioms per theorem)"}
     check.lean = info
     ok = True
+    if not os.path.exists(os.path.join(LEAN_DIR, "IxaiVerif", "Props", f"{pid}.lean")):
+        check.tie_failure("props", f"Props/{pid}.lean does not exist: no theorem is checked for {pid}")
+        return False
     with LeanLock():
         try:
             rep = py2lean.generate(REPO, os.path.join(LEAN_DIR, "IxaiVerif", "Gen"))
